@@ -6,15 +6,23 @@ import networkx as nx
 
 from symx.core import SymInt, all_, any_, ite, not_
 
-SHAPES = {"edge": 2, "tri": 3, "c4": 4}
-TOPO = {"edge": "2-clique", "tri": "3-clique", "c4": "4-cycle"}
-NAMES = ["2-clique", "3-clique", "4-cycle"]
+SHAPES = {"edge": 2, "tri": 3, "c4": 4, "diamond2": 4}
+TOPO = {"edge": "2-clique", "tri": "3-clique", "c4": "4-cycle", "diamond2": "dia-outer"}
+NAMES = ["2-clique", "3-clique", "4-cycle", "dia-outer", "dia-inner"]
 
 
 def shape_edges(shape, ms):
     if shape == "c4":
         return [(ms[0], ms[1]), (ms[1], ms[2]), (ms[2], ms[3]), (ms[3], ms[0])]
+    if shape == "diamond2":  # a motif whose corners mix two edge topologies: outer 4-cycle + inner chord
+        return [(ms[0], ms[1]), (ms[1], ms[2]), (ms[2], ms[3]), (ms[3], ms[0]), (ms[0], ms[2])]
     return list(itertools.combinations(ms, 2))
+
+
+def shape_topos(shape, n_edges):
+    if shape == "diamond2":
+        return ["dia-outer"] * 4 + ["dia-inner"]
+    return [TOPO[shape]] * n_edges
 
 
 def fork_placement(ctx, cfg):
@@ -64,14 +72,21 @@ TEMPLATES = {
     "tri3fan": (7, [("tri", [0, 1, 2]), ("tri", [0, 3, 4]), ("tri", [0, 5, 6]), ("edge", [1, 3]), ("edge", [2, 5])]),
     # u0=0 (1 triangle) with neighbours 3,4 (2 triangles each) against v0=1 (2 triangles) with neighbours 9,10 (1 each)
     "trideg": (12, [("tri", [0, 3, 4]), ("tri", [3, 5, 6]), ("tri", [4, 7, 8]), ("tri", [1, 9, 10]), ("tri", [1, 2, 11])]),
+    # two diamonds whose corners mix two edge topologies (outer cycle / inner chord); annotations chosen so that the hub swap is evaluated
+    "diamond2pair": (8, [("diamond2", [0, 1, 2, 3]), ("diamond2", [4, 5, 6, 7])]),
     "c4pair": (7, [("c4", [0, 1, 2, 3]), ("c4", [2, 4, 5, 6]), ("edge", [0, 4])]),
 }
+
+
+ANNOTATIONS = {"diamond2pair": [(2, 1), (2, 0), (2, 1), (2, 0), (3, 1), (3, 0), (4, 1), (3, 0)]}
 
 
 def template_cfg(cfg):
     V, motifs = TEMPLATES[cfg["template"]]
     c = dict(cfg)
     c["V"] = V
+    if cfg["template"] in ANNOTATIONS:
+        c["ann"] = ANNOTATIONS[cfg["template"]]
     c["shapes"] = [m[0] for m in motifs]
     return c, [list(m[1]) for m in motifs]
 
@@ -95,23 +110,31 @@ def build_network(cfg, placement, extras=None):
     from gcmpy.network.network import Network
 
     shapes = cfg["shapes"]
-    used = [t for t in NAMES if any(TOPO[s] == t for s in shapes)]
+    used = [t for t in NAMES if any(t in shape_topos(s, 1) + shape_topos(s, 5)[-1:] for s in shapes)]
     V = cfg["V"]
     net = Network()
     G = net.G
     G.add_nodes_from(range(V))
     jd = {v: [0] * len(used) for v in range(V)}
     for j, (sh, ms) in enumerate(zip(shapes, placement)):
-        t = TOPO[sh]
-        for v in ms:
-            jd[v][used.index(t)] += 1
-        for a, b in shape_edges(sh, ms):
+        es = shape_edges(sh, ms)
+        ts = shape_topos(sh, len(es))
+        if sh == "diamond2":
+            for (a, b), t in zip(es, ts):
+                jd[a][used.index(t)] += 1
+                jd[b][used.index(t)] += 1
+        else:
+            for v in ms:
+                jd[v][used.index(ts[0])] += 1
+        for (a, b), t in zip(es, ts):
             G.add_edge(a, b)
             G.edges[a, b][NN.TOPOLOGY] = t
             G.edges[a, b][NN.MOTIF_IDS] = j
     for v in range(V):
         if extras:
             jd[v][0] += extras[v]
+        if cfg.get("ann"):
+            jd[v] = list(cfg["ann"][v])
         G.nodes[v][NN.JOINT_DEGREE] = tuple(jd[v])
     return net, used
 
@@ -214,6 +237,16 @@ def broken_motifs(shapes, edges):
         es = by_id.get(j, [])
         pairs = [e for e, _ in es]
         vs = sorted({v for e in pairs for v in e})
+        if sh == "diamond2":
+            outer = [e for e, t in es if t == "dia-outer"]
+            inner = [e for e, t in es if t == "dia-inner"]
+            ok = len(es) == 5 and len(outer) == 4 and len(inner) == 1 and len(vs) == 4 and all(a != b for a, b in pairs)
+            if ok:
+                H = nx.Graph(outer)
+                ok = H.number_of_edges() == 4 and all(d == 2 for _, d in H.degree()) and nx.is_connected(H) and not H.has_edge(*inner[0])
+            if not ok:
+                bad.append((j, sh, es))
+            continue
         ok = all(t == TOPO[sh] for _, t in es) and len(vs) == SHAPES[sh] and all(a != b for a, b in pairs)
         if ok:
             H = nx.Graph(pairs)
